@@ -350,8 +350,18 @@ func genToError(name string, t *tape.Tape) *Shape {
 	if len(rs) > 0 {
 		boolRes = "(" + tyList(rs) + ", bool)"
 	}
+	// the parameters of f keep their names in the function ToError returns: one in three shapes gives one of
+	// them a name the generated body uses itself (err is the supplied error there, f the function, success / out0 locals)
+	anames := vars("a", len(ps))
+	if len(ps) > 0 && t.Chance(1, 3) {
+		anames[t.Intn(len(ps))] = []string{"err", "success", "out0", "f"}[t.Intn(4)]
+	}
+	aparams := make([]string, len(ps))
+	for i, ty := range ps {
+		aparams[i] = anames[i] + " " + ty.Go
+	}
 	fmt.Fprintf(&sb, "\nfunc stage(%s) %s {\n\tlogCall(0%s)\n\tif failAt == 0 {\n\t\tfaults++\n\t\treturn %s\n\t}\n\treturn %s\n}\n",
-		params("a", ps), boolRes, prefixComma(vars("a", len(ps))), withErrVals(mkVals(rs, 90), "false"), withErrVals(mkVals(rs, 10), "true"))
+		strings.Join(aparams, ", "), boolRes, prefixComma(anames), withErrVals(mkVals(rs, 90), "false"), withErrVals(mkVals(rs, 10), "true"))
 	fmt.Fprintf(&sb, "\nfunc Derived(e error%s) %s {\n\treturn deriveToError(e, stage)(%s)\n}\n", paramsAfter("p", ps), results(rs), strings.Join(vars("p", len(ps)), ", "))
 	outv := vars("v", len(rs))
 	fmt.Fprintf(&sb, "\nfunc Reference(e error%s) %s {\n\t%s := stage(%s)\n\tif ok {\n\t\treturn %s\n\t}\n\treturn %s\n}\n",
@@ -389,7 +399,7 @@ func Run() *seqrt.Result {
 }
 `, name, withErr(prefixed("d", rv), "derr"), prefixComma(splitArgs(args)), withErr(prefixed("x", rv), "rerr"), prefixComma(splitArgs(args)),
 		anyList(prefixed("d", rv)), anyList(prefixed("x", rv)), anyList(prefixed("d", rv)), anyList(prefixed("x", rv)))
-	return &Shape{Name: name, Kind: "toerror", Source: sb.String(), Decoded: map[string]any{"kind": "toerror", "params": tyList(ps), "results": tyList(rs)}}
+	return &Shape{Name: name, Kind: "toerror", Source: sb.String(), Decoded: map[string]any{"kind": "toerror", "params": tyList(ps), "param_names": strings.Join(anames, ","), "results": tyList(rs)}}
 }
 
 // paramsAfter renders parameters that follow an earlier one.
